@@ -34,7 +34,7 @@ type isoJob struct {
 
 var isoHandlers = map[string]func(c *Ctx, raw json.RawMessage){}
 
-const isoFlushEvery = 100
+const isoFlushEvery = 25
 
 func runWorker(jobFile string) {
 	debug.SetMaxStack(256 << 20) // a runaway recursion dies quickly instead of eating 1 GB
